@@ -114,4 +114,32 @@ theorem smixI_eq_rfc (m : Nat) (hm : 1 ≤ m) (b : List Blk) : smixI (2 ^ m) b =
   rw [List.getElem?_toArray, h2]
   exact iterList_get _ _ _ _ hj
 
+/-! ### `N&(N-1) == 0` -/
+
+theorem pow2_of_and_pred : ∀ n : Nat, 1 ≤ n → n &&& (n - 1) = 0 → ∃ m, n = 2 ^ m := by
+  intro n
+  induction n using Nat.strongRecOn with
+  | ind n ih =>
+    intro h1 h0
+    by_cases hn : n = 1
+    · exact ⟨0, hn⟩
+    have hd : n / 2 &&& (n - 1) / 2 = 0 := by rw [← Nat.and_div_two, h0]
+    by_cases hodd : n % 2 = 1
+    · have : (n - 1) / 2 = n / 2 := by omega
+      rw [this, Nat.and_self] at hd
+      omega
+    · have : (n - 1) / 2 = n / 2 - 1 := by omega
+      rw [this] at hd
+      obtain ⟨m, hm⟩ := ih (n / 2) (by omega) (by omega) hd
+      exact ⟨m + 1, by rw [Nat.pow_succ]; omega⟩
+
+/-- `N > 1 && N&(N-1) == 0` really means "a power of two ≥ 2" -/
+theorem andPred_pow2 {n : Int} (h2 : 2 ≤ n) (h : andPred n = 0) : ∃ m, 1 ≤ m ∧ n = ((2 ^ m : Nat) : Int) := by
+  unfold andPred at h
+  obtain ⟨m, hm⟩ := pow2_of_and_pred n.toNat (by omega) h
+  refine ⟨m, ?_, by omega⟩
+  cases m with
+  | zero => simp at hm; omega
+  | succ m => omega
+
 end XC.C16
